@@ -70,7 +70,7 @@ def run_tool(impl, src: Path, out: Path, *, style="plaintext", test_run=False, c
     if out.exists():
         for p in sorted(out.rglob("*")):
             if p.is_file():
-                files[str(p.relative_to(out))] = p.read_text(encoding="utf-8")
+                files[str(p.relative_to(out))] = p.read_bytes().decode("utf-8")
     res["files"] = files
     api_files = [k for k in files if k.endswith("__api.json")]
     res["api"] = json.loads(files[api_files[0]]) if api_files else None
